@@ -224,6 +224,7 @@ def run(F, R, ctx):
            "NurseryAccessToken's destructor no longer clears the nursery", "%s:%s" % (nt["file"], nt["line"]), sample=True)
     roundtrip_rule(F, R)
     tuple_arity_rule(F, R)
+    release_token_rule(F, R)
 
 
 # ---------------------------------------------------------------------------------------------------------------------
@@ -347,3 +348,44 @@ def tuple_arity_rule(F, R):
                "ends there (no comparison of len(), no %d-th next() that must be None): (take-pair (list 1 2 3)) invokes the "
                "host function with (1, 2)" % (m.group(1), arity, arity + 1), fn.loc(), sample=True)
     R.floor("C20.t", "tuple conversions", n, 1)
+
+
+WRITE_RX = re.compile(r"atomic::\{impl Atomic\w*(<[^>]*>)?\}::(store|swap|fetch_\w+|compare_exchange\w*)$|Mutex<[^>]*>\}::lock$|RwLock<[^>]*>\}::write$")
+
+
+def release_token_rule(F, R):
+    R.rule("C20.k", "a lent reference's release token is not duplicated: a type of gc::unsafe_erased_pointers whose Drop releases "
+                    "something in shared state (clears a borrow flag, lowers a borrow count) and whose Clone acquires nothing is "
+                    "never cloned — by `clone`, `cloned`, `to_owned` on it or through a helper. A copy releases a second time when "
+                    "it is dropped: the parent object is un-blocked while references derived from it are alive")
+    toks = []
+    for n, fn in F.fns.items():
+        m = re.search(r"^steel::gc::unsafe_erased_pointers::\{impl Drop for (\w+)(<[^{}]*>)?\}::drop$", n)
+        if not m:
+            continue
+        T = m.group(1)
+        if not any(WRITE_RX.search(b["callee"]) for _, b in fn.calls()):
+            continue
+        cl = [f for k, f in F.fns.items() if re.search(r"\{impl Clone for %s(<[^{}]*>)?\}::clone$" % T, k)]
+        acquires = any(WRITE_RX.search(b["callee"]) for f in cl for _, b in f.calls())
+        toks.append((T, bool(cl), acquires))
+    R.floor("C20.k", "release tokens (Drop writes shared state) among the lent-reference types", len(toks), 2)
+    for T, has_clone, acquires in sorted(toks):
+        if not has_clone or acquires:
+            R.inst("C20.k", "%s: %s" % (T, "not Clone" if not has_clone else "Clone acquires what Drop releases"), True, nontrivial=False)
+            continue
+        sites = []
+        for n, fn in F.fns.items():
+            if not n.startswith("steel::") or re.search(r"\{impl Clone for %s\b" % T, n):
+                continue
+            for _, b in fn.calls():
+                if re.search(r"\{impl Clone for %s(<[^{}]*>)?\}::clone$" % T, b["callee"]) or \
+                        (re.search(r"::(clone|cloned|to_owned|clone_from)$", b["callee"]) and
+                         any(re.match(r"^&?(mut )?%s\b" % T, t) for t in (b.get("targs") or []))):
+                    sites.append((fn, b))
+        R.inst("C20.k", "%s is never cloned" % T, not sites,
+               sites and ("%s copies a %s (line %s): its Drop releases the parent's borrow state and its Clone acquires nothing, so "
+                          "dropping the copy releases once more — deriving a reference from a derived reference re-opens the "
+                          "original lent object while both derived references are alive" % (
+                              sites[0][0].short(), T, sites[0][1].get("line"))),
+               sites[0][0].loc(sites[0][1].get("line")) if sites else "", sample=True)
